@@ -14,6 +14,7 @@ import subprocess
 
 import vlib
 from props import lifecycle_common as lc
+from props import gen_common
 
 C03_KINDS = {"ResultDiffers", "BufNotEmpty", "RetNotBuf", "InfoIdentity", "StaleContext", "SkipFlagLeft", "Panic", "Timeout"}
 
@@ -25,7 +26,8 @@ def run(ctx):
     hfile = ctx.path("hists.json")
     json.dump(hists, open(hfile, "w"))
 
-    args = ["-corpus", "examples", "-mode", "hist,pairs", "-hist", hfile, "-oblig", "c03", "-cat", "8"]
+    gdir = gen_common.generate(ctx, "c03")
+    args = ["-corpus", "examples,dir:" + gdir, "-mode", "hist,pairs", "-hist", hfile, "-oblig", "c03", "-cat", "8"]
     if not thorough:
         args += ["-maxg", "24"]
     res, trace = lc.run_harness(ctx, "c03", args)
